@@ -13,6 +13,7 @@ def S(name, op, slen, alen, tiers, **kw):
               filedefs={"String.c": ["-Drealloc=vcap_realloc", "-Dcalloc=vcap_calloc", "-Dfree=vcap_free"]}, srcs_extra=["env_vcap.c"], desc="String %s, initial <= %d chars, operands <= %d chars" % (name, slen, alen), **kw)
 OBLIGATIONS = [S(n, o, 3, 2, (("probe",) if n in ("assign", "seq") else ("quick", "thorough")), timeout=900, backend=("z3" if n in ("assign", "seq") else None)) for n, o in [("assign", "OP_ASSIGN"), ("concat", "OP_CONCAT"), ("resize", "OP_RESIZE"), ("mem", "OP_MEM"), ("rem", "OP_REM"), ("remabsent", "OP_REM_ABSENT"), ("seq", "OP_SEQ")]]
 OBLIGATIONS += [S(n, o, 5, 3, (("quick", "thorough") if n in ("mem", "rem", "remabsent") else ("probe",) if n in ("assign", "seq") else ("thorough",)), timeout=3600, mem_gb=12, backend=("z3" if n in ("assign", "seq") else None)) for n, o in [("assign", "OP_ASSIGN"), ("concat", "OP_CONCAT"), ("resize", "OP_RESIZE"), ("mem", "OP_MEM"), ("rem", "OP_REM"), ("remabsent", "OP_REM_ABSENT"), ("seq", "OP_SEQ")]]
+OBLIGATIONS += [S("alias", "OP_ALIAS", 3, 2, ("quick", "thorough"), timeout=900), S("alias", "OP_ALIAS", 5, 3, ("thorough",), timeout=3600, mem_gb=12)]
 LEVEL_TEXT = ("Bounded model checking of the real String.c through the full dispatch: symbolic contents over the full byte range (initial <= 3 / 5 chars, operands <= 2 / 3 chars), "
               "every operation against a reference buffer, terminator and buffer-overflow oracle via the fixed-capacity allocation model.")
 LEVEL_NOTE = "Trusted: cbmc; ISO-C models of strlen/strcpy/strcat/strstr/strcmp (lib/vlibc.c); realloc/calloc/free of String.c replaced by lib/env_vcap.c (requested sizes as ghost state, slack canary); formatted writes are C14."
